@@ -78,6 +78,7 @@ def run_cli(doc_or_path, opts, stem="input", suffix=".json_solc", hashseed="0", 
     env = dict(os.environ)
     env["PYTHONHASHSEED"] = str(hashseed)
     env["PYTHONWARNINGS"] = "ignore"
+    env["PYTHONDONTWRITEBYTECODE"] = "1"
     env.pop("PYTHONPATH", None)
     env.pop("GASOL_VERIF", None)
     if env_extra:
